@@ -999,6 +999,12 @@ class Mixed(Family):
         out.append(Doc('mx-fixed-blank', _decl() + '<doc><p/><fx> </fx></doc>', 'fault:fixed'))
         out.append(Doc('mx-fixed-wrong', _decl() + '<doc><p/><fx>abc</fx><fx>abd</fx></doc>', 'fault:fixed'))
         out.append(Doc('mx-fixed-child', _decl() + '<doc><p/><fx>abc<x/></fx></doc>', 'fault:fixed'))
+        # a document in another encoding than UTF-8, with characters outside ASCII: a caller who holds it as text holds
+        # the same characters
+        out.append(Doc('mx-latin1', ('<?xml version="1.0" encoding="iso-8859-1"?>\n<doc><p lang="fr">caf\u00e9 \u00e0 la '
+                                     'cr\u00e8me<b>\u00fc\u00df</b></p><nums>1 2</nums></doc>').encode('latin-1')))
+        out.append(Doc('mx-latin1-bad', ('<?xml version="1.0" encoding="iso-8859-1"?>\n<doc><p>\u00e9<u>\u00e8</u></p></doc>')
+                       .encode('latin-1'), 'fault:structure'))
         return out
 
 
@@ -1831,7 +1837,10 @@ def double_fault(doc, rng, order='model-first'):
     """A model violation (unexpected child of the root) and a content error in another sibling, in either
     document order. Works on the one-root-child-per-line layout of the generated documents."""
     import re
-    text = doc.data.decode('utf-8')
+    try:
+        text = doc.data.decode('utf-8')
+    except UnicodeDecodeError:
+        return None
     lines = text.split('\n')
     kids = [i for i, ln in enumerate(lines) if ln.startswith(' <') and not ln.startswith(' </')]
     if len(kids) < 2:
